@@ -385,8 +385,10 @@ func GenCase(t *rapid.T, p Profile) *Case {
 		c.CancelAtGot = 1 + uniform(t, "cancelatgotn", nj)
 	}
 	if prob(t, "gatecase", p.PGate) {
+		c.CancelAtGot = 0 // the promptness scenario has its own cancellation
 		makeGateCase(t, c)
 	} else if prob(t, "barriercase", p.PBarrier) {
+		c.CancelAtGot = 0 // the capacity scenario has no cancellation
 		makeBarrierCase(t, c)
 	}
 	return c
